@@ -118,14 +118,23 @@ def q_poscar(c, A, ctx):
     return c.to_poscar_string()
 
 
-def _saveload(c, ctx, name):
+def _saveload(c, ctx, name, with_text=True):
+    """save() to a file (the same path every time for a given handle, as a
+    user overwriting their file would) and load() it back. For .res / POSCAR
+    the file's text is part of the answer too; a CIF written from a loaded
+    crystal legitimately carries extra items, so only what it parses to counts."""
+    from pathlib import Path
+
     p = "%s/%s" % (ctx["dir"], name)
     c.save(p)
-    return Crystal.load(p)
+    loaded = Crystal.load(p)
+    if not with_text:
+        return loaded
+    return {"loaded": loaded, "text": Path(p).read_text()}
 
 
 def q_sl_cif(c, A, ctx):
-    return _saveload(c, ctx, "x.cif")
+    return _saveload(c, ctx, "x.cif", with_text=False)
 
 
 def q_sl_res(c, A, ctx):
